@@ -28,8 +28,9 @@ class Node(NodeBase):
     uid = Int()
     value = Int()
     label = Str(tag=True)
-    child = Instance(NodeBase)
-    lazy = Instance(NodeBase)
+    # (both object links carry the metadata 'kid': '+kid' as a link step matches them)
+    child = Instance(NodeBase, kid=True)
+    lazy = Instance(NodeBase, kid=True)
     children = List(Instance(NodeBase))
     table = Dict(Str, Instance(NodeBase))
     group = Set(Instance(NodeBase))
@@ -78,7 +79,7 @@ class ValuelessNode(NodeBase):
     """A node class that lacks ``value`` (registration failure fault)."""
     uid = Int()
     label = Str(tag=True)
-    child = Instance(NodeBase)
+    child = Instance(NodeBase, kid=True)
     children = List(Instance(NodeBase))
 
     __hash__ = Node.__hash__
@@ -93,7 +94,7 @@ class LooseNode(NodeBase):
     uid = Int()
     value = Int()
     label = Str(tag=True)
-    child = Instance(NodeBase)
+    child = Instance(NodeBase, kid=True)
     children = Any()
 
     __hash__ = Node.__hash__
@@ -212,6 +213,8 @@ LINK_STEPS = [
     [("t", "group"), ("items", None)],
     [("t", "grid"), ("items", None), ("items", None)],
     [("t", "shelf"), ("items", None), ("items", None)],
+    # a filtered step that yields SEVERAL link traits (and so several objects) per object
+    [("meta", "kid")],
 ]
 LEAVES = [
     [("t", "value")], [("t", "value")], [("t", "value")], [("t", "label")],
@@ -336,6 +339,14 @@ def _step_objects(o, step):
             obs.append(("c", o))
             nxt.extend(_elements(o))
         # generic 'items' on a HasTraits object: trait named 'items' (none here)
+    elif k == "meta" and n == "kid":
+        if isinstance(o, MNode):
+            for n2 in ("child", "lazy"):
+                if n2 in o.traits():
+                    obs.append(("t", o, n2))
+                    v = o.get(n2)
+                    if v is not UNSET and v is not None:
+                        nxt.append(v)
     elif k == "meta":
         if isinstance(o, MNode) and "label" in o.traits():
             obs.append(("t", o, "label"))
@@ -905,7 +916,7 @@ class World:
         if not self.redefine_enabled or name not in m.traits() or (name in CONTAINERS and not m.full):
             return []
         if self.sut_on:
-            tdef = {"value": lambda: Int(), "child": lambda: Instance(NodeBase),
+            tdef = {"value": lambda: Int(), "child": lambda: Instance(NodeBase, kid=True),
                     "children": lambda: List(Instance(NodeBase)),
                     "table": lambda: Dict(Str, Instance(NodeBase)),
                     "group": lambda: Set(Instance(NodeBase))}[name]()
